@@ -1,5 +1,5 @@
 (** C34 property theorems (nothing else lives here; each is closed by [exact]). *)
-From Coq Require Import ZArith Bool.
+From Coq Require Import ZArith Bool List.
 From C34 Require Import Gen Model Proofs.
 Open Scope Z_scope.
 
@@ -46,3 +46,18 @@ Print Assumptions add_gt_when_positive.
 Theorem add_refuses_large : forall bits s n, 2 ^ (bits - 1) - 1 < n -> sn_add bits s n = None.
 Proof. exact add_refused. Qed.
 Print Assumptions add_refuses_large.
+
+(** sums of sums: whatever chain of legal additions produced the left operand, the result is
+    (s + n1 + ... + nk) mod 2^bits and is again a value of the ring (so it carries the ring's own
+    addition limit, not that of another width) *)
+Theorem chain_of_additions_is_the_sum_mod : forall bits ns s,
+  1 <= bits -> valid bits s ->
+  Forall (fun n => 0 <= n <= 2 ^ (bits - 1) - 1) ns ->
+  chain_val bits s ns = (s + fold_right Z.add 0 ns) mod 2 ^ bits /\ valid bits (chain_val bits s ns).
+Proof. exact chain_sum. Qed.
+Print Assumptions chain_of_additions_is_the_sum_mod.
+
+Theorem refused_addition_leaves_the_running_sum : forall bits s n ns,
+  2 ^ (bits - 1) - 1 < n -> chain_val bits s (n :: ns) = chain_val bits s ns.
+Proof. exact chain_refused_keeps. Qed.
+Print Assumptions refused_addition_leaves_the_running_sum.
